@@ -146,8 +146,8 @@ type c12Case struct {
 }
 
 var c12BasePaths = []string{
-	"gno.land/r/c12/a", "gno.land/r/c12/a", "gno.land/r/c12/b", "gno.land/p/c12/a", "gno.land/r/c12/a/v2",
-	"gno.land/r/alice/x", "gno.land/r/bob/x", "gno.land/p/alice/lib", "gno.land/r/carol/x", "gno.land/r/c12/sub-x_y/a",
+	"gno.land/r/c12/aa", "gno.land/r/c12/aa", "gno.land/r/c12/bb", "gno.land/p/c12/aa", "gno.land/r/c12/aa/v2",
+	"gno.land/r/alice/xx", "gno.land/r/bob/xx", "gno.land/p/alice/lib", "gno.land/r/carol/xx", "gno.land/r/c12/sub-x_y/aa",
 }
 
 // c12Hostile builds near-valid variants of a valid path.
@@ -179,7 +179,7 @@ func c12NameFor(path string) string {
 	if c12IdentRe.MatchString(last) {
 		return last
 	}
-	return "a"
+	return "aa"
 }
 
 func c12DrawDeploy(rt *rapid.T, addr string) c12Deploy {
@@ -190,7 +190,7 @@ func c12DrawDeploy(rt *rapid.T, addr string) c12Deploy {
 	}
 	d.Name = c12NameFor(d.Path)
 	if rapid.IntRange(0, 9).Draw(rt, "badname") == 0 {
-		d.Name = rapid.SampledFrom([]string{"other", "main", "a_test", ""}).Draw(rt, "name")
+		d.Name = rapid.SampledFrom([]string{"other", "main", "aa_test", "a", ""}).Draw(rt, "name")
 	}
 	d.Files = rapid.SampledFrom([]int{0, 0, 1, 2, 3, 4, 5}).Draw(rt, "files")
 	d.Ver = rapid.IntRange(0, 3).Draw(rt, "ver")
